@@ -128,6 +128,15 @@ structure St where
   for every input whatever its size: regenerated fact `flate_decompress_unbounded`, round-trip
   oracle in the correspondence run). -/
   decodable : Batch → Bool := fun _ => true
+  /-- how the endpoint answers while it is down (`up = false`): the HTTP status of every
+  failed POST of this history, 0 = no answer at all (connection refused/reset, timeout). The
+  sink accepts 200 and 202 only; EVERY other outcome — any 1xx/2xx/3xx/4xx/5xx status, any
+  transport error — is a failed attempt that the leader loop retries. The tree never reads
+  this field (`givesUp` is `false`): the delivery theorems hold for every value. -/
+  failStatus : Nat := 503
+  /-- what-if switch used only by a witness theorem: a leader loop that treats a 4xx answer
+  (other than 408 and 429) as a final rejection of the event and goes on to the next one -/
+  giveUpOnRejection : Bool := false
   /-- events the leader loop gave up on: the finite retry limit was exhausted
   ("dropped_failed_to_send"), or the stored bytes did not decompress (logged, `unsent := nil`,
   `continue`: an explicit DROP, the HWM stays) -/
@@ -144,6 +153,16 @@ structure St where
   maxIn : Nat := 0
   lastFed : Nat := 0
   front : Nat := 0
+
+/-- a 4xx status other than 408 (request timeout) and 429 (too many requests) -/
+def isRejection (status : Nat) : Bool :=
+  decide (400 ≤ status) && decide (status < 500) && status != 408 && status != 429
+
+/-- does the leader loop stop retrying the event it holds although the endpoint is down?
+A finite retry limit (exhausted at the quiescent point), or the what-if rejection rule.
+Arguments: `maxRetries`, `giveUpOnRejection`, `failStatus`. -/
+def givesUpOf (maxRetries : Nat) (giveUpOnRejection : Bool) (failStatus : Nat) : Bool :=
+  maxRetries != 0 || (giveUpOnRejection && isRejection failStatus)
 
 def hiIdx (b : Batch) : Nat := b.foldl (fun m g => max m g.idx) 0
 
@@ -177,7 +196,7 @@ def pump : Nat → St → St
         -- `flate.Decompress(ev.Data)` fails: the event is dropped before any send
         pump fuel { s with held := none, dropped := s.dropped ++ [(k, b)] }
       else if s.up then pump fuel { s with held := none, delivered := s.delivered ++ [(k, b)], hwm := k }
-      else if s.maxRetries ≠ 0 then
+      else if givesUpOf s.maxRetries s.giveUpOnRejection s.failStatus = true then
         -- the outage outlasts the finite retry limit: the event is dropped, the HWM stays
         pump fuel { s with held := none, dropped := s.dropped ++ [(k, b)] }
       else s
